@@ -178,6 +178,8 @@ func (c *connection) send(conn net.Conn, connDone chan bool) {
 		default:
 			select {
 			case m = <-c.client.sendQueue: // Fetch jobs
+			case <-connDone: // connection closed
+				return
 			case <-t.C:
 				if c.isClosed {
 					return
@@ -277,8 +279,12 @@ func (c *connection) recv(conn net.Conn, connDone chan bool) {
 func (c *connection) close(conn net.Conn) {
 	c.connLock.Lock()
 	defer c.connLock.Unlock()
-	c.isClosed = true
 	if conn != nil {
 		_ = conn.Close()
+	}
+	// Only the goroutines of the current TCP connection may mark the client closed: a goroutine
+	// left over from an earlier connection would otherwise abandon the healthy new one.
+	if conn == nil || conn == c.conn {
+		c.isClosed = true
 	}
 }
